@@ -10,6 +10,7 @@ broadcast use {vstd::std_specs::hash::group_hash_axioms, axh::axiom_uuid_key_mod
 //@include vocab/localmodel.rs
 //@include vocab/undomodel.rs
 //@include prelude/taskstd.rs
+//@include regions/status_impl.rs
 //@include regions/taskdata_impl.rs
 //@include regions/task_impl.rs
 // ---- functions these properties depend on that are NOT verified (outside the verifier's reach): hashed; a change -> UNDECIDED
